@@ -40,7 +40,9 @@ pub enum Op {
 }
 
 #[derive(Clone, Debug, Serialize, Deserialize)]
-pub struct Case { pub tree: TreeSpec, pub net: bool, pub ops: Vec<Op> }
+pub struct Case { pub tree: TreeSpec, pub net: bool, pub ops: Vec<Op>,
+    /// (network route) after the sequence the served directory is removed by a third party while the server runs, and a few more requests arrive
+    #[serde(default)] pub vanish: bool }
 
 pub const METHODS: [&str; 9] = ["PUT", "DELETE", "PATCH", "POST", "GET", "HEAD", "OPTIONS", "TRACE", "CONNECT"];
 
@@ -138,6 +140,7 @@ pub fn eval(ctx: &Ctx, c: &Case, strace: bool) -> Verdict {
     let before = manifest(&tree.base);
     let mut problems: Vec<(String, String)> = vec![];
     let mut strace_log = None;
+    let mut after_while_serving = None;
     if c.net {
         let mut opts = ServerOpts::new(&tree.root, 4);
         if strace {
@@ -147,13 +150,26 @@ pub fn eval(ctx: &Ctx, c: &Case, strace: bool) -> Verdict {
         }
         let mut srv = match Server::start(&opts) { Ok(s) => s, Err(e) => { ctx.inconclusive(&format!("server start: {}", e)); return Verdict::Discard; } };
         for op in &c.ops { let _ = srv.roundtrip(&render(&tree, op), Duration::from_secs(5)); if srv.exited().is_some() { break; } }
+        after_while_serving = Some(manifest(&tree.base));
+        if c.vanish && srv.exited().is_none() {
+            // a third party removes the served directory while the server runs (a deploy that swaps directories): requests that arrive then must not
+            // create anything either - not the directory, not its ancestors
+            let _ = std::fs::remove_dir_all(&tree.root);
+            let gone = manifest(&tree.base);
+            for req in [&b"GET / HTTP/1.1\r\nHost: localhost\r\n\r\n"[..], &b"GET /index.html HTTP/1.1\r\n\r\n"[..], &b"HEAD /missing HTTP/1.1\r\n\r\n"[..], &b"PUT /new.txt HTTP/1.1\r\nContent-Length: 1\r\n\r\nx"[..]] { let _ = srv.roundtrip(req, Duration::from_secs(3)); }
+            let then = manifest(&tree.base);
+            if gone != then {
+                let created: Vec<String> = then.keys().filter(|k| !gone.contains_key(*k)).take(3).cloned().collect();
+                problems.push(("file-created".to_string(), format!("after the served directory had been removed by a third party, requests created {:?} (network route)", created)));
+            }
+        }
         drop(srv);
     } else {
         if std::env::set_current_dir(&tree.root).is_err() { return Verdict::fail("chdir-failed", String::new()); }
         for op in &c.ops { let _ = inproc::serve(&render(&tree, op), Transport::default(), 10000, AppKind::Real, Entry::Process); }
         let _ = std::env::set_current_dir("/");
     }
-    let after = manifest(&tree.base);
+    let after = after_while_serving.unwrap_or_else(|| manifest(&tree.base));
     if before != after {
         let mut diffs = vec![];
         for (k, v) in &before { match after.get(k) { None => diffs.push(format!("deleted {}", k)), Some(a) if a != v => diffs.push(format!("changed {}: {} -> {}", k, v, a)), _ => {} } }
@@ -194,6 +210,7 @@ pub fn eval(ctx: &Ctx, c: &Case, strace: bool) -> Verdict {
     let mut classes = vec![if c.net { "network-route" } else { "in-process-route" }];
     if c.ops.iter().any(|o| matches!(o, Op::Upload { .. })) { classes.push("multipart-upload-naming-a-tree-file"); }
     if state_changing { classes.push("state-changing-method-on-existing-file"); }
+    if c.vanish { classes.push("served-directory-removed-by-a-third-party-while-serving"); }
     ctx.judge(problems, state_changing, classes)
 }
 
@@ -201,10 +218,10 @@ pub fn run(ctx: &Ctx) {
     crate::fw::inproc::init_env();
     *ctx.max_shrink_iters.borrow_mut() = 60;
     let thorough = ctx.tier == Tier::Thorough;
-    let strat = (tree_strategy(false), any::<bool>(), prop_oneof![2 => proptest::collection::vec(op_strategy(), 1..60), 1 => proptest::collection::vec(op_strategy(), 60..200)]).prop_map(|(tree, net, ops)| Case { tree, net, ops });
+    let strat = (tree_strategy(false), any::<bool>(), prop_oneof![2 => proptest::collection::vec(op_strategy(), 1..60), 1 => proptest::collection::vec(op_strategy(), 60..200)]).prop_map(|(tree, net, ops)| Case { vanish: net && ops.len() % 5 == 0, tree, net, ops });
     ctx.prop("sequences", ctx.share(ctx.scale(640, 8000)), strat, |c| eval(ctx, c, false));
     if thorough {
-        let strat = (tree_strategy(false), proptest::collection::vec(op_strategy(), 1..80)).prop_map(|(tree, ops)| Case { tree, net: true, ops });
+        let strat = (tree_strategy(false), proptest::collection::vec(op_strategy(), 1..80)).prop_map(|(tree, ops)| Case { vanish: false, tree, net: true, ops });
         ctx.prop("sequences-under-strace", ctx.share(400), strat, |c| eval(ctx, c, true));
     }
 }
